@@ -1,7 +1,7 @@
 """Sidecar contracts for the functions of /repo/jsonpath (the repository files are untouched)."""
 import importlib
 
-MODULES = ["contracts.selectors", "contracts.envfilter", "contracts.filternodes", "contracts.pointer", "contracts.fluent", "contracts.patch", "contracts.patchbuild", "contracts.paths", "contracts.compound", "contracts.purity", "contracts.errors", "contracts.gate", "contracts.typing", "contracts.cli"]
+MODULES = ["contracts.selectors", "contracts.envfilter", "contracts.filternodes", "contracts.pointer", "contracts.fluent", "contracts.patch", "contracts.patchbuild", "contracts.paths", "contracts.compound", "contracts.purity", "contracts.errors", "contracts.gate", "contracts.typing", "contracts.cli", "contracts.projection"]
 
 
 def load():
